@@ -3,7 +3,7 @@ From Coq Require Import List Arith ZArith QArith.
 Import ListNotations.
 From Coq Require Import Ring.
 From Yaqs Require Import LinAlg.TT.
-From Yaqs Require Import Base.Num Model.JumpPipeline Model.Grid Proofs.JumpPipelineP Proofs.GridQ Gen.SmallGen Proofs.SmallGenP.
+From Yaqs Require Import Base.Num Model.JumpPipeline Model.Grid Proofs.JumpPipelineP Proofs.GridQ Gen.JumpTimeGen Proofs.JumpTimeGenP.
 Local Open Scope nat_scope.
 
 (* for ANY schedule (several jumps, any grid indices), any column j: the jump scheduled at grid index k >= 1
@@ -63,7 +63,7 @@ Example C14_example : let s := from_list [2; 4] in
   sample2 s 4 = [Dh; J; U; D1; J; U; D1; Sj 2; U; D1; J; U; Dh; Sj 4] /\ count_S 2 (sample2 s 1) = 0 /\ u_before 4 (sample2 s 4) = Some 4.
 Proof. vm_compute. repeat split. Qed.
 
-(* tie to the source by translation (Gen/SmallGen.v regenerated on every run): the time-matching tests of has_scheduled_jump and of
+(* tie to the source by translation (Gen/JumpTimeGen.v regenerated on every run): the time-matching tests of has_scheduled_jump and of
    apply_scheduled_jumps are the model's has_jump_at (absolute tolerance dt*1e-3, NO relative tolerance), and they are the
    same test: a jump that is announced is the jump that is applied *)
 Theorem C14_source_announce_test_is_model : forall jump_time time dt, jump_announced_src jump_time time dt = has_jump_at jump_time time dt.
